@@ -57,8 +57,10 @@ func Generate(rng *rand.Rand, i int, thorough bool) *p2prig.Scenario {
 	switch kind {
 	case "forbidden":
 		ns := p2prig.NodeSpec{Kind: "forbidden", MaxAccepts: 12, MaxLive: []int{1, 1, 0}[rng.Intn(3)]}
-		// position of the forbidden header within the batch: first / middle / last / alone
-		switch rng.Intn(4) {
+		// position of the forbidden header within the batch: first / middle / last / alone / before its parent
+		switch rng.Intn(5) {
+		case 4: // delivered before its parent: pushed unsolicited, hanging off a block the service does not have
+			ns.OrphanForbidden = true
 		case 0: // first: the store already holds everything below it
 			ns.ForbiddenAt = 2 + rng.Intn(s.HonestLen-14)
 			s.InitialStore, s.PrefixLen = "prefix", ns.ForbiddenAt-1
@@ -107,6 +109,8 @@ func classify(s *p2prig.Scenario) string {
 	for _, n := range s.Nodes[1:] {
 		k := n.Kind
 		switch {
+		case n.Kind == "forbidden" && n.OrphanForbidden:
+			k += "(before-parent)"
 		case n.Kind == "forbidden" && n.Cap == 1:
 			k += "(alone)"
 		case n.Kind == "forbidden" && n.NoDescendants:
@@ -129,6 +133,7 @@ func body(r *ev.Run) {
 	r.Rule("scenarios = seeded draws over engine {legacy, experimental} x {a node whose chain carries a header on the forbidden list at position first/middle/last/alone of its batch; a node whose chain differs from a checkpoint at a checkpoint height; a single honest node serving a sync across 2..4 checkpoints} x checkpoint lists of 0..4 checkpoints at arbitrary heights x 1-2 misbehaving + 1-2 honest nodes x ban duration {1 h, 1 ms}. Misbehaving nodes are the only reachable ones first (so they are asked), then the honest ones open. Oracles: forbidden hash never in the table nor served (404); its sender's connection closed at quiescence; with a 1 h ban no later connection of that host is sent a getheaders, with a 1 ms ban a later connection is admitted; descendants only ORPHAN; after a checkpoint mismatch the connection is closed and no further getheaders was sent on it; stop hashes walk the checkpoint list and end with zero; afterwards the service converges on the honest chain (C06 oracle). distinct = structural classes; non-trivial = all.")
 	r.Assume("the forbidden hash is harness-chosen and appended to the network parameters before the services are built", "contradicting blocks are lighter than honest ones", "experimental engine: peers are attached one after the other (single-outbound-peer design); it disconnects but does not ban", "ban observed by effect at the scripted node")
 	r.Require("forbidden_header_delivered", 3)
+	r.Require("orphan_forbidden_header_delivered", 1)
 	r.Require("checkpoint_mismatch_delivered", 3)
 	r.Require("checkpoint_advance_sequences_checked", 3)
 	n := r.Pick(96, 1200)
